@@ -7,7 +7,7 @@ name that did not exist when the rule was written.  A local is substituted back 
     (or blocks nested in it);
   * no name occurring in <expr> is re-bound between the assignment and the last use (textually);
   * <expr> contains no yield / await / walrus; an <expr> that creates an object (display, comprehension, non-builtin call) is substituted
-    only into a single, non-mutating use.
+    only when no use can mutate it (no attribute access / item store on the name, no plain alias).
 The assignment is then dropped and every use replaced by <expr>.  This only undoes naming of intermediate values; the rules still
 analyse the current computation.
 """
@@ -85,8 +85,8 @@ def propagate_function(f, ref_names):
                 mutated = any((isinstance(n, ast.Attribute) and isinstance(n.value, ast.Name) and n.value.id == v) or
                               (isinstance(n, ast.Subscript) and isinstance(n.value, ast.Name) and n.value.id == v and isinstance(n.ctx, (ast.Store, ast.Del)))
                               for n in ast.walk(f))
-                in_loop_use = False
-                if len(loads) != 1 or mutated:
+                aliased = any(isinstance(n, ast.Assign) and isinstance(n.value, ast.Name) and n.value.id == v for n in ast.walk(f))
+                if mutated or (len(loads) != 1 and aliased):
                     continue
             blk = _find_block(f, d)
             if blk is None:
